@@ -139,7 +139,7 @@ PINNED = {
     'SymmetricKeyAlgorithm.gen_iv': 'd3393f115bdc',
     'SymmetricKeyAlgorithm.gen_key': 'f5c6f11099e3',
     'SKESessionKeyV4.encrypt_sk': 'cd6d3ea21bc6',
-    'PKESessionKeyV3.encrypt_sk': 'afa44d8349df',
+    'PKESessionKeyV3.encrypt_sk': '170b82b3f592',
     'IntegrityProtectedSKEDataV1.encrypt': '4df5ab8ae793',
     'PrivKey.encrypt_keyblob': 'e41ff31c90df',
     'ECDHCipherText.encrypt': '74f84571eafe',
@@ -379,7 +379,8 @@ def _run(ctx, d, pgpy):
             o = {'op': 'PR', 'cipher': c, 'rcpt': n, 'pw': 'pw', 'halg': 8, 'count': 96 if c != 9 else 255}
             Seq(ctx, d, pgpy, suite, state).run([o, dict(o)], keys)
             ctx.case(suite, (c, 'protect', n), sample={'cipher': c, 'protect': n, 'repeated': 2})
-    ctx.exhaustive.append('cipher x {passphrase, %s} x {drawn, supplied} session key, each operation twice' % ', '.join(rcpts))
+    ctx.exhaustive.append('cipher x {passphrase, %s} x {drawn%s} session key, each operation twice'
+                          % (', '.join(rcpts), ' (supplied: one configuration in three)' if ctx.quick else ', supplied'))
 
     # ---- 2. already-encrypted message gets a further passphrase packet (no new data packet, no prefix)
     suite = 'already-encrypted'
